@@ -74,10 +74,14 @@ def num? : Val → Option Num
   | _ => Option.none
 
 /-- `PyLong_AsDouble`: `OverflowError` beyond the double range -/
-def intToFloat (i : Int) : R F64 :=
-  match F64.ofInt i with
+def intToFloatOf (o : Option F64) : R F64 :=
+  match o with
   | some x => .ok x
   | Option.none => .error .overflowError
+
+/-- (split in two so that facts about the conversion can be proved by cases on an abstract option,
+without the elaborator normalising `F64.ofInt i` under the `match`) -/
+def intToFloat (i : Int) : R F64 := intToFloatOf (F64.ofInt i)
 
 def Num.toF : Num → R F64
   | .i n => intToFloat n
